@@ -524,6 +524,21 @@ func (p *Prog) dynTypesP(v ssa.Value, seen map[ssa.Value]bool, out map[types.Typ
 		return true
 	case *ssa.ChangeInterface:
 		return p.dynTypesP(x.X, seen, out, depth)
+	case *ssa.Parameter:
+		// an interface parameter of an unexported function that is only ever called directly (`d.val(name, v)`): the
+		// dynamic types its call sites pass
+		fn := x.Parent()
+		sites, ok := p.staticCallSites(fn)
+		k := paramIndex(fn, x)
+		if !ok || len(sites) == 0 || k < 0 || depth > 3 {
+			return false
+		}
+		for _, site := range sites {
+			if k >= len(site.Call.Args) || !p.dynTypesP(site.Call.Args[k], seen, out, depth+1) {
+				return false
+			}
+		}
+		return true
 	case *ssa.Extract:
 		if call, ok := x.Tuple.(*ssa.Call); ok {
 			return p.callResultTypes(call, x.Index, seen, out, depth)
@@ -980,4 +995,74 @@ func mapLiteralClosures(v ssa.Value) ([]*ssa.Function, bool) {
 	}
 	sort.Slice(out, func(i, j int) bool { return out[i].String() < out[j].String() })
 	return out, true
+}
+
+// staticCallSites: the call sites of fn when every use of fn in package mq is a static call of it (fn is not
+// exported, never a function or method value, not reached through an interface).  ok is false otherwise.
+func (p *Prog) staticCallSites(fn *ssa.Function) ([]*ssa.Call, bool) {
+	type res struct {
+		sites []*ssa.Call
+		ok    bool
+	}
+	key := "staticsites"
+	m, _ := p.cache[key].(map[*ssa.Function]*res)
+	if m == nil {
+		m = map[*ssa.Function]*res{}
+		p.cache[key] = m
+		get := func(f *ssa.Function) *res {
+			if m[f] == nil {
+				m[f] = &res{ok: true}
+			}
+			return m[f]
+		}
+		for g := range ssautil.AllFunctions(p.Prog) {
+			if g.Blocks == nil || !(p.inMQ(g) || g.Synthetic != "") {
+				continue
+			}
+			for _, b := range g.Blocks {
+				for _, ins := range b.Instrs {
+					var callee *ssa.Function
+					if ci, isCall := ins.(ssa.CallInstruction); isCall {
+						callee = ci.Common().StaticCallee()
+						if call, isPlain := ins.(*ssa.Call); isPlain && callee != nil {
+							if g.Synthetic != "" {
+								get(callee).ok = false // reached through a wrapper (method value, interface method table)
+							} else {
+								get(callee).sites = append(get(callee).sites, call)
+							}
+						} else if callee != nil {
+							get(callee).ok = false // go / defer
+						}
+						if callee == nil && ci.Common().IsInvoke() {
+							cs, _ := p.CG().Callees(ci)
+							for _, c2 := range cs {
+								get(c2).ok = false
+							}
+						}
+					}
+					for _, op := range ins.Operands(nil) {
+						if op == nil || *op == nil {
+							continue
+						}
+						if f, isF := (*op).(*ssa.Function); isF && f != callee {
+							get(f).ok = false
+						}
+						if mc, isMC := (*op).(*ssa.MakeClosure); isMC {
+							_ = mc
+						}
+					}
+					if mc, isMC := ins.(*ssa.MakeClosure); isMC {
+						if f, isF := mc.Fn.(*ssa.Function); isF {
+							get(f).ok = false
+						}
+					}
+				}
+			}
+		}
+	}
+	r := m[fn]
+	if r == nil || !r.ok || fn.Synthetic != "" || fn.Parent() != nil || fn.Object() == nil || fn.Object().Exported() {
+		return nil, false
+	}
+	return r.sites, true
 }
